@@ -210,15 +210,15 @@ def translate(repo_root='/repo'):
     td = ast.parse(open(os.path.join(g, 'diamonds/diamond.py')).read())
     fd = _fn(td, '__init__', 'DiamondGroove')
     based = V('r1', 'r2', 'usable_width', 'tip_depth', 'tip_angle')
-    chain = _find_if(fd.body, 'usable_width and tip_depth and (not tip_angle)')
+    chain = _find_if(fd.body, 'usable_width is not None and tip_depth is not None and (tip_angle is None)')
     out['dia_alpha_uw_td'] = Tr(based).expr(_assign(chain.body, 'alpha'))
     c2 = chain.orelse[0]
-    if ast.unparse(c2.test) != 'usable_width and tip_angle and (not tip_depth)':
+    if ast.unparse(c2.test) != 'usable_width is not None and tip_angle is not None and (tip_depth is None)':
         raise Untranslatable("second branch of DiamondGroove")
     out['dia_alpha_ta'] = Tr(based).expr(_assign(c2.body, 'alpha'))
     out['dia_td_uw_ta'] = Tr(dict(based, alpha=('var', 'alpha'))).expr(_assign(c2.body, 'tip_depth'))
     c3 = c2.orelse[0]
-    if ast.unparse(c3.test) != 'tip_depth and tip_angle and (not usable_width)':
+    if ast.unparse(c3.test) != 'tip_depth is not None and tip_angle is not None and (usable_width is None)':
         raise Untranslatable("third branch of DiamondGroove")
     if to_coq(Tr(based).expr(_assign(c3.body, 'alpha'))) != to_coq(out['dia_alpha_ta']):
         raise Untranslatable("alpha of the third branch of DiamondGroove")
